@@ -81,11 +81,14 @@ CLAIMED["C10"] = dict(
          "source; C10_each_readable — each is readable by its root name and equals its source; C10_read_list — a read without a path "
          "on a file with >= 2 roots reports exactly the root names; C10_save_list — through save(path, [...]) itself: a list of "
          "Roots, unrooted nodes, arrays and dicts saved to a fresh path gives the header plus exactly one top-level tree per root "
-         "(root_savedlist of the unrooted items first, then the given Roots whole, in order), each the encoding of its source.",
+         "(root_savedlist of the unrooted items first, then the given Roots whole, in order), each the encoding of its source; "
+         "C10_save_list_rooted — the same entry point for a list that ALSO holds any number of rooted nodes of one other tree: "
+         "after the plain roots comes a copy of that tree's root (name, metadata) holding exactly the listed nodes alone, in list order.",
     note="List items that are nodes of other trees: each step is proved through the public entry point (C10_rooted_item: the node "
          "alone becomes a new last child of the root group of that name; mdBody_self: the copy's metadata are unchanged by the "
          "merge; C10_rooted_items_fold: all rooted items of one root, saved one after the other, leave the copy with exactly those "
-         "nodes alone, in order). saveList as one statement for lists mixing several roots' items with plain items is modelled "
+         "nodes alone, in order; C10_save_list_rooted composes the three phases for one foreign root). Lists holding rooted items of SEVERAL "
+         "different trees, or rooted nodes deeper than direct children, are not proved as one statement: they are modelled "
          "(EmdModel.SaveList) and checked by the correspondence and a direct layout oracle on every generated list. The array_i / dictionary_i naming inside root_savedlist is part of listRoots (model), compared with the code.",
     technique="Lean 4 frame/invariant proofs over the save dispatch + differential correspondence on interleaved list saves and appends",
     design="7 C10")
